@@ -449,13 +449,14 @@ func c01BehaviourCorrespondence(c *vh.Ctx) {
 			c.Hit("behaviour:driver-" + a)
 			continue
 		}
-		if parts[2] != "exact" {
-			c.Hit("behaviour:skipped-inexact")
-			continue
-		}
 		want := fmt.Sprintf("ok:%s:%d", vh.HxS(j.res.Out), j.res.Status)
 		if j.res.Err != "" || j.res.Panic != "" {
 			want = "error"
+		}
+		if parts[0] == "error" && parts[1] == "error" && want != "error" {
+			// the Lean semantics gives up (as an error) when a number reaches 2^53; the real run went on: not comparable
+			c.Hit("behaviour:skipped-possible-overflow")
+			continue
 		}
 		c.Trace()
 		c.Eval("run\x00"+j.req, len(j.res.Out) > 0)
